@@ -10,6 +10,8 @@ import Cctz.Model.Posix
 import Cctz.Model.Tz
 import Cctz.Model.Split
 import Cctz.Model.Loader
+import Cctz.Model.Format
+import Cctz.Model.Parse
 
 open Cctz
 
@@ -363,8 +365,8 @@ def loaderOp (st : DState) (toks : List String) : Option (DState × String) :=
           let r := Tz.breakTime z 0 t
           s!"{r.val.1.offset}:{Bytes.toHex r.val.1.abbr}"
         match z with
-        | some z => s!"{if ok then 1 else 0} {Bytes.toHex shown} {fp z 0} {fp z 1700000000}"
-        | none => s!"0 {Bytes.toHex (Bytes.ofString "UTC")} 0:555443 0:555443"
+        | some z => s!"{if mode == "local" then "L" else if ok then "1" else "0"} {Bytes.toHex shown} {fp z 0} {fp z 1700000000}"
+        | none => s!"{if mode == "local" then "L" else "0"} {Bytes.toHex (Bytes.ofString "UTC")} 0:555443 0:555443"
       match Fixed.fromName name with
       | some 0 => some (st, finish true (Bytes.ofString "UTC") (some (Tz.resetToBuiltinUTC 0).val))
       | some off => some (st, finish true name (some (Tz.resetToBuiltinUTC off).val))
@@ -378,6 +380,59 @@ def loaderOp (st : DState) (toks : List String) : Option (DState × String) :=
             match (Tz.load {} bytes).val with
             | .ok z => some (st, finish true name (some z))
             | _ => some (st, finish false [] none)
+  | _ => none
+
+
+/-! ### format / parse -/
+
+def showTm (t : Format.Tm) : String :=
+  s!"{t.sec},{t.min},{t.hour},{t.mday},{t.mon},{t.year},{t.wday},{t.yday},{t.isdst}"
+
+def parseTm (s : String) : Option Format.Tm :=
+  match (s.splitOn ",").mapM String.toInt? with
+  | some [a, b, c, d, e, f, g, h, i] => some ⟨a, b, c, d, e, f, g, h, i⟩
+  | _ => none
+
+def showSeg : Format.Seg → String
+  | .lit b => "L" ++ Bytes.toHex b
+  | .run r => "R" ++ Bytes.toHex r
+
+/-- one entry of the strptime oracle table: spec:data:tmIn:consumed:tmOut (consumed -1 = NULL) -/
+def parseSpEntry (s : String) : Option ((Bytes × Bytes × Format.Tm) × Option (Nat × Format.Tm)) :=
+  match s.splitOn ":" with
+  | [spec, data, tin, n, tout] => do
+      let spec ← Bytes.ofHex spec; let data ← Bytes.ofHex data; let tin ← parseTm tin
+      let n ← n.toInt?
+      if n < 0 then some ((data, spec, tin), none)
+      else do let tout ← parseTm tout; some ((data, spec, tin), some (n.toNat, tout))
+  | _ => none
+
+def fmtOp (st : DState) (toks : List String) : Option (DState × String) :=
+  match toks with
+  | ["fmt", id, t, fs, hexfmt] => do
+      let t ← t.toInt?; let fs ← fs.toInt?
+      let f ← Bytes.ofHex hexfmt
+      let e ← st.find id
+      let r := (Tz.breakTime e.zone e.btHint t).bind' fun (al, _) => Format.formatSegs f al t fs
+      let hint := (Tz.breakTime e.zone e.btHint t).val.2
+      some (st.set id { e with btHint := hint }, showCk r fun (tm, segs) =>
+        s!"F {showTm tm}" ++ String.join (segs.map fun sg => " " ++ showSeg sg))
+  | "parse" :: id :: hexfmt :: hexin :: entries => do
+      let f ← Bytes.ofHex hexfmt; let inp ← Bytes.ofHex hexin
+      let e ← st.find id
+      let table ← entries.mapM parseSpEntry
+      let sp : Parse.Strptime := fun d spec tm =>
+        match table.find? (fun en => en.1 == (d, spec, tm)) with
+        | some en => en.2
+        | none => none
+      let r := Parse.parse sp f inp e.zone
+      -- a strptime query the table does not answer: ask the comparer
+      match r.val.2.spQueries.find? (fun q => !(table.any fun en => en.1 == q)) with
+      | some (d, spec, tm) => some (st, s!"MISS {Bytes.toHex spec} {Bytes.toHex d} {showTm tm}")
+      | none =>
+        some (st, showCk r fun (res, _) => match res with
+          | .fail => "fail"
+          | .ok sec fsv => s!"ok {sec} {fsv}")
   | _ => none
 
 def handle (st : DState) (line : String) : DState × String :=
@@ -396,7 +451,10 @@ def handle (st : DState) (line : String) : DState × String :=
         | none =>
           match loaderOp st toks with
           | some (st', r) => (st', r)
-          | none => (st, "bad-op")
+          | none =>
+            match fmtOp st toks with
+            | some (st', r) => (st', r)
+            | none => (st, "bad-op")
 
 partial def loop (hin : IO.FS.Stream) (hout : IO.FS.Stream) (st : DState) : IO Unit := do
   let line ← hin.getLine
